@@ -83,6 +83,11 @@ def combos() -> list[tuple[str, str, list[str]]]:
 			out.append((f'{o} not', f'a {o} b and not b {o} c', [f'(a {o} b) and (not (b {o} c))']))
 		else:
 			out.append((f'not {o}', f'not a > 1 {o} b > 1', [f'(not a > 1) {o} (b > 1)', f'not (a > 1 {o} b > 1)']))
+	# `not` binds looser than every arithmetic / bitwise / shift operator in Python, tighter than all of them in C++
+	for o in ARITH:
+		bb = '(b + 1)' if o == '%' else 'b'
+		out.append((f'not {o}', f'not a {o} {bb}', [f'not (a {o} {bb})', f'(not a) {o} {bb}']))
+		out.append((f'not {o} cmp', f'not a {o} {bb} > c', [f'not ((a {o} {bb}) > c)', f'(not a) {o} {bb} > c']))
 	# ternaries against everything
 	for o in ARITH + CMP:
 		bb = '(c + 1)' if o == '%' else 'c'
